@@ -233,6 +233,9 @@ Fixpoint split (dims : list nat) (vals : list val) : val :=
 
 Definition zero_variant : val := VVariant 0 0 0 [] None.
 
+(* Go's int64 multiplication *)
+Definition mul64 (a b : Z) : Z := to_signed 8 ((a * b) mod pow8 8).
+
 Section Rec.
   (* the registry of extension object bodies: (namespace, numeric id) -> struct descriptor *)
   Variable reg : list (Z * Z * ty).
@@ -264,10 +267,12 @@ Section Rec.
   Definition dec_dim : dec Z :=
     d <- read_i 4 ;; if d <? 1 then fail EOther else ret d.
 
+  (* the product of the dimensions as Variant.Decode computes it: int64 multiplications, which wrap modulo 2^64, with a
+     guard after every step; the guard is what keeps the wrap unreachable (Proofs/CodecSplit.v: dims_product_exact) *)
   Fixpoint dims_product (ds : list Z) (count : Z) : option Z :=
     match ds with
     | [] => Some count
-    | d :: r => let c := count * d in if max_int32 <? c then None else dims_product r c
+    | d :: r => let c := mul64 count d in if max_int32 <? c then None else dims_product r c
     end.
 
   Definition dec_variant : dec val :=
